@@ -91,6 +91,7 @@ fn main() {
             }
         }
         "compile" => {
+            // builder methods are applied in the order the options were given (the result must not depend on it)
             let mut c = match (&o.file, &o.dir) {
                 (Some(f), _) => Compile::file(f),
                 (_, Some(d)) => Compile::directory(d),
@@ -99,20 +100,33 @@ fn main() {
                     std::process::exit(2);
                 }
             };
-            if let Some(d) = &o.dest {
-                c = c.destination(d);
-            }
-            if let Some(p) = &o.prefix {
-                c = c.prefix(p.clone());
-            }
-            if o.format {
-                c = c.format();
-            }
-            if let Some(d) = &o.derives {
-                c = c.derives(d.clone());
-            }
-            if let Some(t) = &o.ctx {
-                c = c.user_context_type(t);
+            let rest = &args[2..];
+            let mut i = 0;
+            while i < rest.len() {
+                let val = |i: usize| rest.get(i + 1).cloned().unwrap_or_default();
+                match rest[i].as_str() {
+                    "--dest" => {
+                        c = c.destination(val(i));
+                        i += 1;
+                    }
+                    "--prefix" => {
+                        c = c.prefix(val(i));
+                        i += 1;
+                    }
+                    "--format" => c = c.format(),
+                    "--derives" => {
+                        c = c.derives(val(i).split(',').map(|s| s.to_string()).collect());
+                        i += 1;
+                    }
+                    "--no-derives" => c = c.derives(vec![]),
+                    "--ctx" => {
+                        c = c.user_context_type(&val(i));
+                        i += 1;
+                    }
+                    "--file" | "--dir" => i += 1,
+                    _ => {}
+                }
+                i += 1;
             }
             if o.exit {
                 c.run_exit_on_error();
@@ -123,6 +137,34 @@ fn main() {
                     Err(e) => println!("Err\n{e:?}"),
                 }
             }
+        }
+        "gen-multi" => {
+            // library route called repeatedly in one process: prints the result for the LAST file only
+            let mut settings = CodegenSettings::default();
+            if let Some(d) = &o.derives {
+                settings.derives = d.clone();
+            }
+            if let Some(c) = &o.ctx {
+                settings.set_user_context_type(c);
+            }
+            let mut last = String::from("ERR\nno input");
+            for path in &o.positional {
+                let text = match std::fs::read_to_string(path) {
+                    Ok(t) => t,
+                    Err(e) => {
+                        last = format!("IOERR\n{e}");
+                        continue;
+                    }
+                };
+                let r = Grammar::from_str(&text)
+                    .map_err(|e| format!("parse error: {e:?}"))
+                    .and_then(|g| g.generate_code(&settings).map_err(|e| format!("codegen error: {e:?}")));
+                last = match r {
+                    Ok(code) => format!("OK\n{code}"),
+                    Err(e) => format!("ERR\n{e}"),
+                };
+            }
+            println!("{last}");
         }
         _ => {
             eprintln!("unknown subcommand");
